@@ -260,7 +260,11 @@ class Norm:
         self._stack = _stack + (body.get("path"),)
         self._cur_depth = 0
         self.call_depth = {}
-        self._fn_block = strip(body["body"]) if isinstance(body.get("body"), dict) else None
+        fb = body.get("body")
+        while isinstance(fb, dict) and fb.get("k") in ("DropTemps", "Use"):
+            fb = fb["e"]
+        self._fn_block = fb if isinstance(fb, dict) else None
+        self._ret_blocks = {id(fb)} if isinstance(fb, dict) else set()      # blocks whose `return` / `?` leave exactly that block: fn and closure bodies
         self.def_ctx = {}    # local id -> (closure depth, guards) at its `let`
         self.defs = {}       # local id -> binding record
         self.mut = set()     # ids declared `mut` or by-ref-mut
@@ -365,6 +369,10 @@ class Norm:
                 self._index(n["else"], depth, guards + (("if", n["cond"], False),))
             return
         elif k == "Closure":
+            cb = n["body"]
+            while isinstance(cb, dict) and cb.get("k") in ("DropTemps", "Use"):
+                cb = cb["e"]
+            self._ret_blocks.add(id(cb))
             self.closure_depth[n["def"]] = depth + 1
             for i, p in enumerate(n["params"]):
                 self._bind_pat(p, ("cparam", depth + 1, i, n["def"]), ())
@@ -951,17 +959,10 @@ class Norm:
                 d = clo[1]
                 el = ("elem", it)
                 body = _apply(clo, el)
-                part = None
-                if body[0] == "call" and body[1] == "Option::map" and len(body[2]) == 2 and body[2][1][0] == "closure" and body[2][1][2] == 1:
-                    O, c2 = body[2]
-                    d2 = c2[1]
-                    inner = ("proj", O, "v1::Some", "0")
-                    V = _apply(c2, inner)
-                    part = ("for", it, ("if", _let("v1::Some($)", O), V, ("lit", "()")))
-                elif body[0] == "call" and body[1] == "then" and len(body[2]) == 2:
-                    part = ("for", it, ("if", body[2][0], body[2][1], ("lit", "()")))
-                if part is not None:
-                    return ("call", "vec+", [part])
+                ob = _opt_body(body, strict=True)
+                if ob is not None:
+                    c, v = ob
+                    return ("call", "vec+", [("for", it, v if c is None else ("if", c, v, ("lit", "()")))])
             if name == "Result::map" and len(args) == 1 and args[0][0] == "closure" and args[0][2] == 1:
                 # r.map(|v| X)  ==  match r { Ok(v) => Ok(X), Err(e) => Err(e) }
                 d = args[0][1]
@@ -1038,14 +1039,14 @@ class Norm:
                             tail = ("opaque", "diverge")
             if tail == ("lit", "()") and e.get("ty") == "!":
                 tail = ("opaque", "diverge")
-            if e is self._fn_block and tail[0] == "call" and tail[1] == "Option::map" and len(tail[2]) == 2 and tail[2][1][0] == "closure" and tail[2][1][2] == 1:
+            if id(e) in self._ret_blocks and tail[0] == "call" and tail[1] == "Option::map" and len(tail[2]) == 2 and tail[2][1][0] == "closure" and tail[2][1][2] == 1:
                 tail = ("call", "Some", [_apply(tail[2][1], ("try", tail[2][0]))])      # opt.map(|v| f(v)) as the result of the function  ==  Some(f(opt?))
             if effs and tail[0] == "if" and (_is_unit(tail[3]) or _is_unit(tail[2])):
                 both = _found_flag_loops(effs + [tail])
                 if len(both) < len(effs) + 1:
                     effs, tail = both, ("lit", "()")
             effs = _found_flag_loops(effs)
-            if not early and len(effs) == 1 and effs[0][0] == "for" and e is self._fn_block:
+            if not early and len(effs) == 1 and effs[0][0] == "for" and id(e) in self._ret_blocks:
                 lp = effs[0]
                 if lp[2][0] == "early" and len(lp[2][1]) == 1 and lp[2][1][0][1][0] == "ret" and _is_unit(lp[2][2]):
                     # for x in it { if c(x) { return r(x) } } tail   ==   match it.find(c) { Some(x) => r(x), None => tail }
@@ -1072,7 +1073,7 @@ class Norm:
                         tail = ("seq", rest, tail[2]) if len(rest) > 1 or (rest and tail[2] != ("lit", "()")) else rest[0] if rest else tail[2]
                     else:
                         tail = ("lit", "()")
-                if e is self._fn_block and all(v[0] == "ret" and c != ("lit", "match") for c, v in early2):
+                if id(e) in self._ret_blocks and all(v[0] == "ret" and c != ("lit", "match") for c, v in early2):
                     return _unreturn(("early", early2, tail))       # guard clauses of the function body are an if / else chain
                 return ("early", early2, tail)
             return tail
@@ -1105,6 +1106,7 @@ class Norm:
                         arms.append((pat_repr(q), rewrite(g, ren) if g else g, rewrite(bt, ren)))
                     continue
                 arms.append((pat_repr(a["pat"]), g, bt))
+            arms = _expand_bool_tuple_arms(scr, arms)
             # `match x { v => body }` single irrefutable binding arm (format_ident! etc.)
             if len(arms) == 1 and e["arms"][0]["pat"].get("k") == "Bind":
                 return arms[0][2]
@@ -1382,6 +1384,32 @@ def _proj_some(O):
     return ("proj", O, "v1::Some", "0")
 
 
+def _opt_body(f, strict=False):
+    """an Option-valued term as (condition under which it is Some, payload): `c.then(|| v)`, `Some(v)` with `o?` inside,
+    `o.map(|y| v)`, or any other option `o` (Some iff o is, payload of o)"""
+    if f[0] == "call" and f[1] == "then" and len(f[2]) == 2:
+        return f[2][0], f[2][1]
+    if f[0] == "call" and f[1] == "Some" and len(f[2]) == 1:
+        tries = []
+        for st in subterms(f[2][0]):
+            if st[0] == "try" and st not in tries:
+                tries.append(st)
+        tries = [t for t in tries if not any(t is not u and any(x == t for x in subterms(u[1])) for u in tries)] or tries
+        v = f[2][0]
+        cond = None
+        for t in tries:
+            payload = _proj_some(t[1])
+            v = rewrite(v, lambda n, t=t, payload=payload: payload if n == t else None)
+            c1 = _let("v1::Some($)", t[1])
+            cond = c1 if cond is None else ("op", "&&", [cond, c1])
+        return cond, v
+    if f[0] == "call" and f[1] == "Option::map" and len(f[2]) == 2 and f[2][1][0] == "closure" and f[2][1][2] == 1:
+        return _let("v1::Some($)", f[2][0]), _apply(f[2][1], _proj_some(f[2][0]))
+    if strict:
+        return None
+    return _let("v1::Some($)", f), _proj_some(f)
+
+
 def _mk_for(it, body):
     """for x in ADAPTOR(it) { body }: map / filter / filter_map adaptors fused into the loop body"""
     if it[0] == "call" and it[1] in ("Iterator::map", "Iterator::filter", "Iterator::filter_map") and len(it[2]) == 2 \
@@ -1395,10 +1423,9 @@ def _mk_for(it, body):
             return _mk_for(base, rewrite(body, lambda n: f if n == old else None))
         if it[1] == "Iterator::filter":
             return _mk_for(base, ("if", f, rewrite(body, lambda n: el if n == old else None), ("lit", "()")))
-        if f[0] == "call" and f[1] == "then" and len(f[2]) == 2:
-            return _mk_for(base, ("if", f[2][0], rewrite(body, lambda n: f[2][1] if n == old else None), ("lit", "()")))
-        payload = _proj_some(f)
-        return _mk_for(base, ("if", _let("v1::Some($)", f), rewrite(body, lambda n: payload if n == old else None), ("lit", "()")))
+        c, v = _opt_body(f)
+        inner = rewrite(body, lambda n: v if n == old else None)
+        return _mk_for(base, inner if c is None else ("if", c, inner, ("lit", "()")))
     return ("for", it, body)
 
 
@@ -1472,6 +1499,37 @@ def _has_loop_exit(body):
             continue
         stack.extend(children(n))
     return False
+
+
+def _expand_bool_tuple_arms(scr, arms):
+    """match on a tuple of booleans: every arm spelled out per combination (first match wins), so `_`, or-patterns and
+    explicit listings of the same combinations give the same arms"""
+    if scr[0] != "tup" or not (1 <= len(scr[1]) <= 4) or any(g is not None for _p, g, _b in arms):
+        return arms
+    n = len(scr[1])
+    import itertools
+    combos = ["(" + ",".join(c) + ")" for c in itertools.product(("false", "true"), repeat=n)]
+    taken = {}
+    for p, _g, b in arms:
+        alts = []
+        for alt in p.split("|"):
+            if alt in ("_", "$"):
+                alts.append(["_"] * n)
+            elif alt.startswith("(") and alt.endswith(")"):
+                comps = alt[1:-1].split(",")
+                if len(comps) != n or any(c not in ("true", "false", "_") for c in comps):
+                    return arms
+                alts.append(comps)
+            else:
+                return arms
+        for comps in alts:
+            for c in combos:
+                cc = c[1:-1].split(",")
+                if all(x == "_" or x == y for x, y in zip(comps, cc)) and c not in taken:
+                    taken[c] = b
+    if len(taken) != len(combos):
+        return arms
+    return [(c, None, taken[c]) for c in combos]
 
 
 def _or_alternatives(p):
